@@ -261,7 +261,7 @@ def _check_rank_null(A4, r_true):
         if N4.shape[:2] != (dim, dim - rk):
             return {"what": f"{side} null space has shape {N4.shape[:2]}, expected {(dim, dim - rk)}"}
         if dim - rk:
-            if rt.fro(rt.qmm(F, N4)) > 1e-8 * sc:
+            if not (rt.fro(rt.qmm(F, N4)) <= 1e-8 * sc):
                 return {"what": f"{side} null vectors are not mapped to zero", "err": rt.fro(rt.qmm(F, N4))}
             ind = int(np.sum(rt.singular_values(N4) > 1e-8))
             if ind != dim - rk:
@@ -281,15 +281,26 @@ def _check_det(n, rng):
     A4, _, _ = rt.from_svd(rng, n, n, sv)
     B4 = rng.standard_normal((n, n, 4))
     dA, dB = u.det(rt.q_from4(A4), "Dieudonne"), u.det(rt.q_from4(B4), "Dieudonné")
-    if abs(dA - np.prod(sv)) > 1e-9 * max(1.0, np.prod(sv)):
+    if not abs(dA - np.prod(sv)) <= 1e-9 * max(1.0, np.prod(sv)):
         return {"what": "Dieudonne determinant differs from the product of singular values", "got": dA, "want": float(np.prod(sv))}
     dAB = u.det(rt.q_from4(rt.qmm(A4, B4)), "Dieudonne")
-    if abs(dAB - dA * dB) > 1e-8 * max(1.0, abs(dA * dB)):
+    if not abs(dAB - dA * dB) <= 1e-8 * max(1.0, abs(dA * dB)):
         return {"what": "det(AB) != det(A) det(B)", "dAB": dAB, "dAdB": dA * dB}
     S4 = A4.copy()
     S4[:, 0] = 0
-    if abs(u.det(rt.q_from4(S4), "Dieudonne")) > 1e-10:
-        return {"what": "determinant of a singular matrix is not zero"}
+    dS = u.det(rt.q_from4(S4), "Dieudonne")
+    if not abs(dS) <= 1e-10:             # (written so that nan fails)
+        return {"what": "determinant of a singular matrix (zero column) is not zero", "got": dS}
+    if n >= 2:
+        L4 = rt.qmm(rng.standard_normal((n, n - 1, 4)), rng.standard_normal((n - 1, n, 4)))
+        dL = u.det(rt.q_from4(L4), "Dieudonne")
+        if not abs(dL) <= 1e-10 * max(1.0, float(rt.singular_values(L4)[0]) ** n):
+            return {"what": "determinant of a rank-deficient product is not zero", "got": dL}
+    for c in (1e-30, 1e30):
+        dc = u.det(rt.q_from4(A4 * c), "Dieudonne")
+        want = float(np.prod([c * x for x in sv]))
+        if not abs(dc - want) <= 1e-9 * want:
+            return {"what": f"Dieudonne determinant not homogeneous of degree n at scale {c:g}", "got": dc, "want": want}
     lam = [float(x) for x in (rng.standard_normal(n) * 2)]
     Q = rt.gram_schmidt_unitary(rng, n)
     D = np.zeros((n, n, 4))
@@ -298,7 +309,7 @@ def _check_det(n, rng):
     H4 = rt.qmm(rt.qmm(Q, D), rt.qH(Q))
     H4 = 0.5 * (H4 + rt.qH(H4))
     dm = u.det(rt.q_from4(H4), "Moore")
-    if abs(complex(dm) - np.prod(lam)) > 1e-8 * max(1.0, abs(np.prod(lam))):
+    if not abs(complex(dm) - np.prod(lam)) <= 1e-8 * max(1.0, abs(np.prod(lam))):
         return {"what": "Moore determinant differs from the product of eigenvalues", "got": complex(dm), "want": float(np.prod(lam))}
     if not u.ishermitian(rt.q_from4(H4), tol=1e-12) or u.ishermitian(rt.q_from4(B4)) or not u.ishermitian(rt.q_from4(np.zeros((n, n, 4)))):
         return {"what": "ishermitian misclassifies"}
@@ -422,6 +433,8 @@ def run(tier, seed):
     ]
     rep.trusted += ["qv engine", "z3 5.1", "library model"]
     deductive(rep, tier)
+    from ..frame import no_module_state
+    no_module_state(rep, P, [U + n_ for n_ in ("rank", "quat_null_space", "quat_null_right", "quat_null_left", "quat_kernel", "det", "ishermitian")])
     bounded(rep, tier, seed)
     return rep
 
